@@ -3,7 +3,7 @@
    relations stated as hypotheses (s*s = dt, r*r = dt^2/12 + asperity, amp^2 = sigma^2 (1 - e^2)). *)
 From Coq Require Import QArith Qcanon List Bool ZArith Lia.
 Import ListNotations.
-Require Import NV.C29.Model NV.C29.Proofs.
+Require Import NV.C29.Model NV.C29.Proofs NV.C29.Proofs2.
 Open Scope Qc_scope.
 
 (* ---- discrete_gauss_markov_process: the fori_loop with scatter-add (running to res.size, i.e.
@@ -148,6 +148,19 @@ Theorem C29_ou_semigroup :
     a1 * a1 = sigma * sigma * (1 - e1 * e1) -> a2 * a2 = sigma * sigma * (1 - e2 * e2) ->
     (e2 * a1) * (e2 * a1) + a2 * a2 = sigma * sigma * (1 - (e1 * e2) * (e1 * e2)).
 Proof. exact ou_semigroup. Qed.
+
+(* ---- round 7: a scalar (time-independent) drift -- the else-branch of `d = drift[i] if len(drift.shape) > 2
+   else drift` -- is the textbook recursion with that constant, and equals the per-step path driven with the
+   constant repeated; any number of steps, incl. the loop's overrun to res.size *)
+Theorem C29_const_drift_is_recursion :
+  forall d amp xi x0,
+    gmp1_cd d amp xi x0 = recursion Qc Qc Qcplus Qcmult (fun _ => d) 0 x0 (map2 Qcmult amp xi).
+Proof. exact gmp1_cd_is_recursion. Qed.
+
+Theorem C29_const_drift_agrees_with_sequence :
+  forall d amp xi x0,
+    gmp1_cd d amp xi x0 = gmp1 (repeat d (length (map2 Qcmult amp xi))) amp xi x0.
+Proof. exact gmp1_cd_is_gmp1. Qed.
 
 (* ---- non-vacuity: the relations have rational witnesses, and the models run *)
 Example C29_hyps_satisfiable :
